@@ -121,4 +121,13 @@ MUTANTS = [
     ("spline_chain_derivative_unscaled", "rockit/spline_method.py", "                    e = bspline_derivative(e,self.xi,d-i)/self.T", "                    e = bspline_derivative(e,self.xi,d-i)", ["C17"]),
     ("spline_constraints_skip_refined_points", "rockit/spline_method.py", "            _,results = self.grid_control(stage, canon, 'control', refine=refine)", "            _,results = self.grid_control(stage, canon, 'control', refine=min(refine,2))", ["C17"]),
     ("bspline_param_coeff_reversed", SM, "            opti.set_value(self.signals[p].coeff, stage._param_value(p))", "            opti.set_value(self.signals[p].coeff, DM(stage._param_value(p))[:,::-1])", ["C17"]),
+    # --- C20
+    ("missing_set_der_becomes_zero", ST, "            try:\n                der.append(self._state_der[k])\n            except:\n                raise Exception(\"ocp.set_der missing for state defined at \" + str(self._meta[k]))\n        ode = veccat(*der)", "            try:\n                der.append(self._state_der[k])\n            except:\n                der.append(MX.zeros(k.sparsity()))\n        ode = veccat(*der)", ["C20"]),
+    ("missing_param_value_defaults_to_zero", ST, "            raise Exception(\"You forgot to declare a value (using ocp.set_value) of the following parameter: \" + str(self._meta[p]))", "            return DM.zeros(p.shape) if p.is_scalar() else DM.zeros(p.shape[0], 64)[:, :0]+0", ["C20"]),
+    ("constant_false_constraint_dropped", DM, "                    raise Exception(\"You have a constraint that is never statisfied.\")", "                    return", ["C20"]),
+    ("no_solver_defaults_to_ipopt", DM, "                    raise Exception(\"You forgot to declare a solver. Use e.g. ocp.solver('ipopt').\")", "                    self._solver = 'ipopt'; self._solver_options = {'ipopt.print_level':0,'print_time':False}", ["C20"]),
+    ("set_initial_on_parameter_ignored", ST, "                raise Exception(\"You attempted to set the initial value of a parameter. Did you mean ocp.set_value()? Got \" + str(var))", "                return", ["C20"]),
+    ("unknown_subject_to_grid_means_control", ST, "        if grid not in ['point', 'control', 'inf', 'integrator', 'integrator_roots']:\n            raise Exception(\"Invalid argument\")", "        if grid not in ['point', 'control', 'inf', 'integrator', 'integrator_roots']:\n            grid = 'control'", ["C20"]),
+    ("signal_objective_accepted", ST, "        assert not self.is_signal(term), \"An objective cannot be a signal. You must use ocp.integral or ocp.at_t0/tf to remove the time-dependence\"", "        if self.is_signal(term): term = self.at_tf(term)", ["C20"]),
+    ("explicit_scheme_ignores_algebraic", SM, "    def intg_rk(self, f, X, U, P, Z):\n        assert Z.is_empty()", "    def intg_rk(self, f, X, U, P, Z):\n        Z = MX(0,1)", ["C20"]),
 ]
